@@ -15,6 +15,6 @@ for prop in sys.argv[1:]:
                 shutil.copy(f, dst + '/' + ext)
         mm = dict(m)
         mm['property'] = prop
-        mm['origin'] = 'sub-agent given only the property text and a scratch worktree of /repo at dcc8092c'
+        mm['origin'] = 'sub-agent given only the property text and a scratch worktree of /repo at 353bf747'
         json.dump(mm, open(dst + '/meta.json', 'w'), indent=1)
         print('imported', dst)
